@@ -8,6 +8,7 @@
 package pipe
 
 import (
+	"bytes"
 	"context"
 	"crypto/ecdsa"
 	"crypto/elliptic"
@@ -20,6 +21,7 @@ import (
 	"math/big"
 	"math/rand/v2"
 	"net"
+	"strings"
 	"sync"
 	"sync/atomic"
 	"time"
@@ -76,6 +78,10 @@ type netState struct {
 	clock    *atomic.Int64
 	// onSrvRead (relay over UDP): every datagram the server's RTP socket reads
 	onSrvRead func(b []byte)
+	// Writes on plain RTSP connections that were not exactly one message
+	nSplit     int
+	firstSplit string
+	tls        bool
 }
 
 func newNetState(clock *atomic.Int64) *netState {
@@ -101,11 +107,71 @@ func (ns *netState) lookup(port int) (*gate, *reader) {
 
 type srvConn struct {
 	net.Conn
-	ns   *netState
-	port int
+	ns     *netState
+	port   int
+	sniff  sync.Once
+	tunnel atomic.Bool // HTTP / WebSocket tunnel: what is written is not plain RTSP
+}
+
+func (c *srvConn) Read(b []byte) (int, error) {
+	n, err := c.Conn.Read(b)
+	if n > 0 {
+		c.sniff.Do(func() {
+			if bytes.HasPrefix(b[:n], []byte("GET ")) || bytes.HasPrefix(b[:n], []byte("POST ")) {
+				c.tunnel.Store(true)
+			}
+		})
+	}
+	return n, err
+}
+
+// wholeMessage: is b exactly one interleaved frame, or exactly one RTSP response / request?  The
+// response writer of a connection and the session's media writer share the connection with nothing
+// but the atomicity of one Write call between them: a message handed over in two calls can be torn.
+func wholeMessage(b []byte) bool {
+	if len(b) == 0 {
+		return true
+	}
+	if b[0] == 0x24 {
+		return len(b) >= 4 && len(b) == 4+(int(b[2])<<8|int(b[3]))
+	}
+	i := bytes.Index(b, []byte("\r\n\r\n"))
+	if i < 0 {
+		return false
+	}
+	first := b[:bytes.IndexByte(b, '\r')]
+	if !bytes.HasPrefix(first, []byte("RTSP/1.0 ")) && !bytes.HasSuffix(first, []byte(" RTSP/1.0")) {
+		return false
+	}
+	body := 0
+	for _, line := range bytes.Split(b[:i], []byte("\r\n")) {
+		if k := bytes.IndexByte(line, ':'); k > 0 && strings.EqualFold(string(line[:k]), "Content-Length") {
+			fmt.Sscanf(strings.TrimSpace(string(line[k+1:])), "%d", &body) //nolint:errcheck
+		}
+	}
+	return len(b) == i+4+body
+}
+
+func (ns *netState) splitWrite(who string, b []byte) {
+	ns.mu.Lock()
+	ns.nSplit++
+	if ns.firstSplit == "" {
+		n := len(b)
+		if n > 24 {
+			n = 24
+		}
+		ns.firstSplit = fmt.Sprintf("%s: a Write of %d bytes starting % x is not one whole message", who, len(b), b[:n])
+	}
+	ns.mu.Unlock()
 }
 
 func (c *srvConn) Write(b []byte) (int, error) {
+	if bytes.HasPrefix(b, []byte("HTTP/")) {
+		c.tunnel.Store(true) // answer to the GET / POST / upgrade of a tunnel
+	}
+	if !c.tunnel.Load() && !wholeMessage(b) {
+		c.ns.splitWrite("server connection", b)
+	}
 	if len(b) > 0 && b[0] == 0x24 { // interleaved frame: the session's writer goroutine
 		if g, _ := c.ns.lookup(c.port); g != nil {
 			g.wait()
@@ -341,8 +407,31 @@ func dialer(ns *netState, rd *reader) func(ctx context.Context, network, address
 		if a, ok := nc.LocalAddr().(*net.TCPAddr); ok {
 			ns.register(a.Port, rd)
 		}
-		return nc, nil
+		if ns.tls {
+			return nc, nil // the client wraps it in TLS: only ciphertext would be seen
+		}
+		return &cliConn{Conn: nc, ns: ns}, nil
 	}
+}
+
+// cliConn checks what a library client writes on a plain connection (requests, interleaved frames).
+type cliConn struct {
+	net.Conn
+	ns     *netState
+	sniff  sync.Once
+	tunnel atomic.Bool
+}
+
+func (c *cliConn) Write(b []byte) (int, error) {
+	c.sniff.Do(func() {
+		if bytes.HasPrefix(b, []byte("GET ")) || bytes.HasPrefix(b, []byte("POST ")) {
+			c.tunnel.Store(true)
+		}
+	})
+	if !c.tunnel.Load() && !wholeMessage(b) {
+		c.ns.splitWrite("client connection", b)
+	}
+	return c.Conn.Write(b)
 }
 
 func cliListenPacket(ns *netState, rd *reader) func(network, address string) (net.PacketConn, error) {
